@@ -1161,6 +1161,28 @@ class FnItem:
             pieces.append(Piece("    decreases " + sp["decreases"], ("spec", self.qualname() + "::decreases")))
         # loops & proofs: offset-based insertions into body
         inserts = []  # (offset, text, label)
+        if sp.get("unroll_extra_loops") and not sp.get("loops") and not sp.get("n_loops") and loop_heads(body):
+            # R32 (refutation-only variant): a function that had no loop when its contract was written now has one.  Each `while C { B }`
+            # is replaced by `if C { B verif_loop_cut(); }`: the paths with zero iterations and with one iteration of the new loop
+            # are real executions, longer ones are cut off (`verif_loop_cut` ensures false).  Sound for REFUTATIONS only - the
+            # result of this variant is never used as a proof (check.py consults it only when the full run is undecided).
+            toks, match = _toks(body)
+            edits = []
+            for i, t in enumerate(toks):
+                if t.kind == "ident" and t.text in ("for", "loop") and not (t.text == "for" and i > 0 and toks[i - 1].text in ("impl", ">")):
+                    raise Undecided("%s: R32 handles only `while` loops" % self.name)
+                if t.kind == "ident" and t.text == "while":
+                    j = i + 1
+                    while toks[j].text != "{":
+                        j = match[j] + 1 if toks[j].text in ("(", "[") else j + 1
+                    inner = toks[j + 1:match[j]]
+                    if any(x.kind == "ident" and x.text in ("break", "continue", "while", "for", "loop") for x in inner) or toks[i + 1].text == "let":
+                        raise Undecided("%s: R32 handles only simple `while` loops (no break / continue / nested loop / while let)" % self.name)
+                    edits.append((t.start, t.end, "if"))
+                    edits.append((toks[match[j]].start, toks[match[j]].start, " verif_loop_cut(); "))
+            body = _apply(body, edits)
+            hits["R32"] = len(edits) // 2
+            self.bounded_by_unrolling = True
         heads = loop_heads(body)
         for ordinal, txt in sorted(sp.get("loops", {}).items()):
             if ordinal < 1 or ordinal > len(heads):
